@@ -72,6 +72,9 @@ def run(ctx):
         "loading certificates, key stores, IRMA) is outside the model",
         "model scope: core/url.go, core/server_config.go Load + ServerURL, core/config.go loadFromFlagSet, crypto.Configure, storage.initSQLDatabase, vdr.Configure (URL), "
         "network.Configure (TLS), auth.Configure (IRMA scheme), notary.Configure (dummy means), jsonld.Configure (remote contexts), http engine (client.StrictMode), http/client, cmd/root.go engine order",
+        "deepening round: http/client limitedReadAll + body pipeline of Do (byte level); core/config.go loadFromEnv / splitWithEscaping / loadFromFlagSet and loadConfigMap order; "
+        "Load check order; crypto.Configure switch by name; TLSConfig.Enabled / Load over the three tls.* files (vcr, network, GoldenHammer). Contracts tied by correspondence: "
+        "koanf/mapstructure conversion of a loaded value (ParseBool table, string -> one-element slice), YAML / pflag parsing, validity of the PEM files (only valid files are generated)",
     ]
     ctx.assumptions += [
         "'network TLS switched off' is an insecure setting only when the network engine is enabled (didmethods contains nuts): theorem tls_off_network_disabled shows the other reading's configuration",
@@ -362,7 +365,10 @@ def run(ctx):
                        "probes (dummy means, unlisted remote JSON-LD context, client.StrictMode); EVERY registered server flag set on the command line; moved keys via file and "
                        "environment in both modes; ParsePublicURL / IssuerIdToWellKnown on the full (scheme x host) table in both modes plus random decorations; "
                        "New / NewWithCache / NewWithTLSConfig clients against real local TLS+HTTP servers with scripted redirect chains. "
-                       "distinct_nontrivial = distinct accepted URLs + flags + option rows + outbound scenarios")
+                       "Deepening round: response-cap cases (body sizes around 1 MiB, Content-Length / chunked, behind redirects) through the three constructors; "
+                       "strictmode / url / didmethods through the real loader from file x environment (name spellings x raw values) x command line, part continued into Configure; "
+                       "all 8 subsets of the tls.* file options x mode x didmethods; spellings of the crypto back-end name. "
+                       "distinct_nontrivial = distinct accepted URLs + flags + option rows + outbound scenarios + source combinations + cap cases")
     ctx.cov["input_distribution"] = {"by_family": dict(tags), "outcomes": dict(outcomes.most_common(60)),
                                      "secret_looking_flags_accepted_on_cli(stated limit)": sorted(set(odd_accepted))}
     ctx.cov["samples"] = [ops[-1][:300] if ops else "", impl[-1][:300] if impl else ""]
